@@ -131,14 +131,41 @@ func genToken(r *rand.Rand, vi bool) (tok string, tag string) {
 
 func genScript(r *rand.Rand, vi bool, n int) []sess.Step {
 	var plan []sess.Step
+	prevDigits := false
 	for i := 0; i < n; i++ {
 		t, tag := genToken(r, vi)
+		// keep numeric arguments within the stated bound (<= 3 typed digits in a row)
+		isDig := tag == "digits" || tag == "metadigits" || tag == "metaneg"
+		if isDig && prevDigits {
+			t, tag = "x", "word"
+		}
+		prevDigits = isDig
 		if tag == "argcmd" && r.Intn(2) == 0 && len(t) > 1 {
 			// argument key in a separate read
 			plan = append(plan, sess.Step{W: t[:len(t)-1], Tag: "argcmd"}, sess.Step{W: t[len(t)-1:], Tag: "arg"})
 			continue
 		}
 		plan = append(plan, sess.Step{W: t, Tag: tag})
+	}
+	return plan
+}
+
+// limitDigits keeps at most max digit characters in a script, so that no numeric argument can
+// exceed 10^max-1: a command repeating a failing key read that many times is finite, and the
+// read-storm bound (sess.MaxFaultReads) stays above it.
+func limitDigits(plan []sess.Step, max int) []sess.Step {
+	n := 0
+	for i := range plan {
+		b := []byte(plan[i].W)
+		for j := range b {
+			if b[j] >= '0' && b[j] <= '9' {
+				n++
+				if n > max {
+					b[j] = 'n'
+				}
+			}
+		}
+		plan[i].W = string(b)
 	}
 	return plan
 }
@@ -170,10 +197,10 @@ func c01Gen(r *rand.Rand, tier string, idx int) any {
 		c.Exit = steps("\x04")
 	case "eof":
 		// fault after a PRNG-chosen prefix of the script
-		c.Plan = c.Plan[:r.Intn(len(c.Plan)+1)]
+		c.Plan = limitDigits(c.Plan[:r.Intn(len(c.Plan)+1)], 5)
 		c.Exit = []sess.Step{{EOF: true}}
 	case "eio":
-		c.Plan = c.Plan[:r.Intn(len(c.Plan)+1)]
+		c.Plan = limitDigits(c.Plan[:r.Intn(len(c.Plan)+1)], 5)
 		c.Exit = []sess.Step{{EIO: true}}
 	}
 	return c
